@@ -94,6 +94,13 @@ func (s *Store) kvsDeleteTreeTxn(tx WriteTxn, idx uint64, prefix string, entMeta
 			if err := s.kvsGraveyard.InsertTxn(tx, prefix, idx, entMeta); err != nil {
 				return fmt.Errorf("failed adding to graveyard: %s", err)
 			}
+		} else {
+			// No tombstone can stand for the whole tree. Drop the older tombstones
+			// so that every listing falls back to the table index written below
+			// instead of reporting the (lower) index of an earlier delete.
+			if _, err := tx.DeleteAll(tableTombstones, indexID); err != nil {
+				return fmt.Errorf("failed clearing graveyard: %s", err)
+			}
 		}
 
 		if err := tx.Insert(tableIndex, &IndexEntry{"kvs", idx}); err != nil {
